@@ -268,7 +268,21 @@ class _Folder:
                 for kk, vv in zip(base.keys, base.values):
                     if isinstance(kk, ast.Constant) and kk.value == k.value:
                         return vv
-                return self.fold(e.args[1]) if len(e.args) == 2 else ast.copy_location(ast.Constant(value=None), e)
+                if all(isinstance(kk, ast.Constant) for kk in base.keys):
+                    return self.fold(e.args[1]) if len(e.args) == 2 else ast.copy_location(ast.Constant(value=None), e)
+            if isinstance(base, ast.Dict) and isinstance(k, ast.Constant) and k.value is None and base.keys and all(
+                    isinstance(kk, ast.Attribute) and isinstance(self.prog.resolve_expr_symbol(self.mod, kk), tuple) for kk in base.keys):
+                return self.fold(e.args[1]) if len(e.args) == 2 else ast.copy_location(ast.Constant(value=None), e)   # None is no member
+            if isinstance(base, ast.Dict) and isinstance(k, ast.Attribute):
+                # a table keyed by enum members, looked up with an enum member
+                sk = self.prog.resolve_expr_symbol(self.mod, k)
+                if isinstance(sk, tuple) and sk[0] == 'enum_member':
+                    syms = [self.prog.resolve_expr_symbol(self.mod, kk) if isinstance(kk, (ast.Attribute, ast.Name)) else None for kk in base.keys]
+                    if all(isinstance(x, tuple) and x[0] == 'enum_member' for x in syms):
+                        for x, vv in zip(syms, base.values):
+                            if x[1] is sk[1] and x[2] == sk[2]:
+                                return vv
+                        return self.fold(e.args[1]) if len(e.args) == 2 else ast.copy_location(ast.Constant(value=None), e)
             return e
         # a callee that folds to a function of the package: call it by name
         if isinstance(f, (ast.Attribute, ast.Subscript, ast.Call, ast.Name)):
